@@ -396,6 +396,29 @@ func collectDeclaredAccountsFromResolved(resolved *include.ResolvedJournal) map[
 	return declared
 }
 
+// DeclarationsFromResolved returns the accounts and commodities declared anywhere in a
+// resolved include tree (the primary journal and every included file).
+func DeclarationsFromResolved(resolved *include.ResolvedJournal) ExternalDeclarations {
+	return ExternalDeclarations{
+		Accounts:    collectDeclaredAccountsFromResolved(resolved),
+		Commodities: collectDeclaredCommoditiesFromResolved(resolved),
+	}
+}
+
+// MergeDeclarations returns the union of two declaration sets in fresh maps.
+func MergeDeclarations(a, b ExternalDeclarations) ExternalDeclarations {
+	out := ExternalDeclarations{Accounts: make(map[string]bool), Commodities: make(map[string]bool)}
+	for _, d := range []ExternalDeclarations{a, b} {
+		for k := range d.Accounts {
+			out.Accounts[k] = true
+		}
+		for k := range d.Commodities {
+			out.Commodities[k] = true
+		}
+	}
+	return out
+}
+
 func collectDeclaredAccounts(journal *ast.Journal) map[string]bool {
 	declared := make(map[string]bool)
 	for _, dir := range journal.Directives {
